@@ -175,7 +175,11 @@ theorem str_repeat (s : Bytes) (n : I64) (w1 w2 : Bool) (hn : n.slt 0#64 = false
     (hb : s.length * n.toNat ≤ repeatBound) :
     binop "*" ⟨w1, .str s⟩ ⟨w2, .int n⟩ = .ok (.str ((List.replicate n.toNat s).flatten)) := by
   simp only [binop, RV.unwrap, mulOp]
-  simp [hn, Nat.not_lt.mpr hb, repeatBytes_eq]
+  by_cases he : s.length = 0
+  · have hs : s = [] := List.length_eq_zero_iff.mp he
+    subst hs
+    simp [hn]
+  · simp [hn, he, Nat.not_lt.mpr hb, repeatBytes_eq]
 
 theorem str_repeat_negative (s : Bytes) (n : I64) (w1 w2 : Bool) (hn : n.slt 0#64 = true) :
     binop "*" ⟨w1, .str s⟩ ⟨w2, .int n⟩ = .err "negative repeat count" := by
